@@ -198,6 +198,7 @@ class Program:
         self.parse_failures: list[str] = []
         self.else_flattened = 0    # redundant `else` after a non-falling-through branch removed (canonical form, see normalize.flatten_else)
         self.tuple_assigns_split = 0   # canonical form: `a, b = x, y` -> `a = x` / `b = y` (normalize.canonical_forms)
+        self.display_loops_unrolled = 0  # `for X in (A, B): BODY` with a new local X unrolled (normalize.unroll_new_display_loops)
         self.common_tails_sunk = 0  # canonical form: a statement ending every branch of an if/else chain written once after it (normalize.canonical_forms)
         self.negations_distributed = 0  # canonical form: `not (a and b)` -> `not a or not b` (normalize.canonical_forms)
         self.fill_loops_folded = 0   # `A = []; for v in IT: [if C:] A.append(E)` with new locals A, v folded back to a comprehension (normalize.fold_new_fill_loops)
@@ -229,6 +230,7 @@ class Program:
                     prog.tuple_assigns_split += sp_
                     prog.negations_distributed += di_
                     prog.common_tails_sunk += getattr(normalize.canonical_forms, 'last_sunk', 0)
+                    prog.display_loops_unrolled += normalize.unroll_new_display_loops(tree, rel)
                     prog.locals_recovered += localnames.recover(tree, rel)
                     prog.helpers_inlined += normalize.inline_new_helpers(tree, rel)
                     prog.helpers_inlined += normalize.inline_new_predicates(tree, rel)
